@@ -156,6 +156,12 @@ impl ObjectReceiver {
         self.init_object_writer(now);
         self.push_from_cache(now);
 
+        if self.state != State::Receiving {
+            // The writer refused the object, could not be opened,
+            // or the object ended while the cache was replayed
+            return;
+        }
+
         if self.oti.is_none() {
             self.cache(pkt)
                 .unwrap_or_else(|_| self.error("Fail to push pkt to cache", now, false));
